@@ -51,3 +51,9 @@ pub open spec fn ordered(s: Seq<Item>) -> bool {
     (forall|i: int| 0 <= i < s.len() ==> (#[trigger] s[i]).span.wf())
     && (forall|i: int, j: int| 0 <= i < j < s.len() ==> (#[trigger] s[i]).span.end.0 <= (#[trigger] s[j]).span.start.0)
 }
+
+impl FindVisitor {
+    // the recursive traversal step (visit_expr) is NOT under contract; only its being reached with a node matters here
+    #[verifier::external_body]
+    pub fn visit_expr(&mut self, e: Item) ensures final(self).pos == old(self).pos { unimplemented!() }
+}
